@@ -54,8 +54,10 @@ func modesString(tails []int, a map[int]byte) string {
 
 // judgeStream compares one recorded event stream with the reference model.
 // Returns the accepted tail reading ("" if no tail edges) and the violations.
-func judgeStream(p *program, engine, hist string, listen func(int) bool, got []event) (string, []viol) {
-	tail, vs := judgeStreamValues(p, engine, hist, listen, got)
+// multi != nil: the stream was recorded by a component of a MultiFunctionListenerFactory; multi(i) = function i
+// has two or more component listeners.
+func judgeStream(p *program, engine, hist string, listen, multi func(int) bool, got []event) (string, []viol) {
+	tail, vs := judgeStreamValues(p, engine, hist, listen, multi, got)
 	// slice lengths: params/results must be exactly the function type's values
 	for _, e := range got {
 		if e.Extra > 0 {
@@ -76,7 +78,7 @@ func judgeStream(p *program, engine, hist string, listen func(int) bool, got []e
 	return tail, vs
 }
 
-func judgeStreamValues(p *program, engine, hist string, listen func(int) bool, got []event) (string, []viol) {
+func judgeStreamValues(p *program, engine, hist string, listen, multi func(int) bool, got []event) (string, []viol) {
 	t := p.tree
 	tails := t.tailNodes()
 	// 1. the statement: some reading with every tail call nested or return-then-call
@@ -91,8 +93,9 @@ func judgeStreamValues(p *program, engine, hist string, listen func(int) bool, g
 	type capOpt struct {
 		abort, stack     int
 		lcStack, lcAbort bool
+		mo               bool
 	}
-	caps := []capOpt{{0, 0, false, false}}
+	caps := []capOpt{{}}
 	if deep {
 		caps = append(caps, capOpt{abort: implAbortCap})
 		if engine == "compiler" {
@@ -109,6 +112,12 @@ func judgeStreamValues(p *program, engine, hist string, listen func(int) bool, g
 			}
 		}
 	}
+	if engine == "compiler" && multi != nil {
+		for _, c := range append([]capOpt{}, caps...) {
+			c.mo = true
+			caps = append(caps, c)
+		}
+	}
 	d := defectTailModes(engine)
 	best := -1
 	var bestV []viol
@@ -120,10 +129,14 @@ func judgeStreamValues(p *program, engine, hist string, listen func(int) bool, g
 					nd++
 				}
 			}
-			if nd == 0 && c.abort == 0 && c.stack == 0 && !c.lcStack && !c.lcAbort {
+			if nd == 0 && c.abort == 0 && c.stack == 0 && !c.lcStack && !c.lcAbort && !c.mo {
 				continue
 			}
-			want, _ := runModel(t, p.sigs, listen, modelOpts{tail: a, abortCap: c.abort, stackCap: c.stack, lifecycle: hist, lcStack: c.lcStack, lcAbort: c.lcAbort})
+			mo := modelOpts{tail: a, abortCap: c.abort, stackCap: c.stack, lifecycle: hist, lcStack: c.lcStack, lcAbort: c.lcAbort}
+			if c.mo {
+				mo.multiOuter = multi
+			}
+			want, _ := runModel(t, p.sigs, listen, mo)
 			if !eventsEqual(got, want) {
 				continue
 			}
@@ -138,6 +151,9 @@ func judgeStreamValues(p *program, engine, hist string, listen func(int) bool, g
 				score += 100
 			}
 			if c.lcAbort {
+				score += 100
+			}
+			if c.mo {
 				score += 100
 			}
 			if best >= 0 && score >= best {
@@ -162,6 +178,10 @@ func judgeStreamValues(p *program, engine, hist string, listen func(int) bool, g
 			if c.stack > 0 {
 				bestV = append(bestV, viol{"stack-iterator-capped-at-29-frames:" + engine,
 					fmt.Sprintf("the stack iterator lists at most %d frames: deepest before-event of a %d-frame chain lists %d", implStackCapWazevo, len(t), maxStack(got))})
+			}
+			if c.mo {
+				bestV = append(bestV, viol{"multi-factory:compiler:stack-iterator-frames-all-report-the-outermost-function",
+					fmt.Sprintf("functions with two or more listeners combined by MultiFunctionListenerFactory: every frame of the StackIterator given to Before has the definition of the outermost function; got %s", clipS(streamString(got)))})
 			}
 			if c.lcStack {
 				bestV = append(bestV, viol{"closed-compiled-module:compiler:stack-iterator-stops-at-deleted-module",
